@@ -6,6 +6,6 @@ Extraction Language OCaml.
 Extraction "model.ml"
   N.add N.mul N.sub N.div N.modulo N.eqb N.ltb N.leb N.of_nat N.to_nat N.land N.shiftl N.shiftr
   alloc_init alloc release count_tag is_live stat_code
-  DEFAULT_CAPACITY DEFAULT_EXPANSION_FACTOR_num DEFAULT_EXPANSION_FACTOR_den
+  PQUEUE_DEFAULT_CAPACITY PQUEUE_DEFAULT_EXPANSION_FACTOR_num PQUEUE_DEFAULT_EXPANSION_FACTOR_den
   m_CC_PARENT m_CC_LEFT m_CC_RIGHT
   pq_new pq_destroy pq_destroy_cb pq_step pq_top pq_pop pq_push pq_prefix.
